@@ -93,7 +93,7 @@ func Verif_C10_peer_stop() {
 	case c10HoldDown:
 		e.p.start()
 		c := e.bring(out, stOpenSent)
-		c.send(updateMessageType, []byte{0, 0, 0, 0}) // unexpected in OpenSent: FSM error, peer damped
+		c.send(verifMsgUpdate, []byte{0, 0, 0, 0}) // unexpected in OpenSent: FSM error, peer damped
 		verifQuiesce()
 		add(c, false)
 		verifAssert("in-hold-down", e.p.inHoldDown)
@@ -146,24 +146,24 @@ func Verif_C10_peer_stop() {
 		case 1: // the message that is legal progress in this state: the session goes on
 			switch rstate {
 			case stOpenSent:
-				racing.send(openMessageType, e.openBody())
+				racing.send(verifMsgOpen, e.openBody())
 			case stOpenConfirm:
-				racing.send(keepAliveMessageType, nil)
+				racing.send(verifMsgKeepalive, nil)
 			default:
-				racing.send(updateMessageType, []byte{0, 0, 0, 0})
+				racing.send(verifMsgUpdate, []byte{0, 0, 0, 0})
 			}
 		case 2:
 			racing.remoteClose(1)
 			endsSession = true
 		case 3: // a message that is unexpected in this state: FSM error
 			if rstate == stEstablished {
-				racing.send(openMessageType, e.openBody())
+				racing.send(verifMsgOpen, e.openBody())
 			} else {
-				racing.send(updateMessageType, []byte{0, 0, 0, 0})
+				racing.send(verifMsgUpdate, []byte{0, 0, 0, 0})
 			}
 			endsSession = true
 		case 4:
-			racing.send(notificationMessageType, []byte{NOTIF_CODE_CEASE, 0})
+			racing.send(verifMsgNotification, []byte{NOTIF_CODE_CEASE, 0})
 			endsSession = true
 		}
 		// if the in-flight event ends the session for another reason, whether a Cease precedes the close is don't-care
